@@ -4,10 +4,10 @@ from rules import tables as T
 
 
 def run(ctx):
-    S.erv3_http_maps_errors(ctx)
-    S.ord9_insert(ctx)
-    T.tbl11_json_renderers(ctx)
-    S.ord14_multi_query_positional(ctx)
+    ctx.run(S.erv3_http_maps_errors)
+    ctx.run(S.ord9_insert)
+    ctx.run(T.tbl11_json_renderers)
+    ctx.run(S.ord14_multi_query_positional)
     return ctx.finish(
         'Static analysis: every handler that runs a query maps the error to a non-2xx response '
         'and none unwraps it; insert_bin answers 200 only on the Ready edge of the ingestion future '
